@@ -46,6 +46,37 @@ const maxInlineDepth = 6
 
 var dbgSeen = map[string]int{}
 
+// helperCalls: for a call of a contract-less function of the repository, the callee names that function calls exactly
+// once in its own body (one level).
+func (fc *fnCtx) helperCalls(ci ssa.CallInstruction) []string {
+	callee := ci.Common().StaticCallee()
+	if callee == nil || !fc.e.inRepo(callee) || fc.e.contracts.Funcs[fc.e.keyOf(callee)] != nil {
+		return nil
+	}
+	fn := originOf(callee)
+	cnt := map[string]int{}
+	var order []string
+	for _, b := range fn.Blocks {
+		for _, ins := range b.Instrs {
+			if c, ok := ins.(ssa.CallInstruction); ok {
+				if n := calleeName(c.Common()); n != "" {
+					if cnt[n] == 0 {
+						order = append(order, n)
+					}
+					cnt[n]++
+				}
+			}
+		}
+	}
+	var out []string
+	for _, n := range order {
+		if cnt[n] == 1 {
+			out = append(out, n)
+		}
+	}
+	return out
+}
+
 // movedHints: hints of the contract under verification whose target `call NAME#K` is no longer in the function's own
 // body, when this call (in a contract-less helper executed in place) is the helper's only call of NAME and the helper
 // was entered through the K-th call of that helper in the function: the statement carrying the hint moved into a helper.
@@ -75,18 +106,20 @@ func (fc *fnCtx) movedHints(fr *frame, call *ssa.Call) (before, after []*Clause)
 	rank, k := 0, 0
 	for _, b := range fc.top.fn.Blocks {
 		for _, ins := range b.Instrs {
-			c, ok := ins.(*ssa.Call)
+			c, ok := ins.(ssa.CallInstruction)
 			if !ok {
 				continue
 			}
-			if calleeName(c.Common()) == name {
-				return // the function still calls NAME itself: the numbering is not the helper's
-			}
-			if callee := c.Common().StaticCallee(); callee != nil && originOf(callee) == originOf(f.fn) {
-				k++
-				if fmt.Sprintf("call%d", fc.top.callOrd[c]) == f.site {
-					rank = k
+			for _, inner := range fc.helperCalls(c) {
+				if inner == name {
+					k++
+					if cc, isCall := c.(*ssa.Call); isCall && fmt.Sprintf("call%d", fc.top.callOrd[cc]) == f.site {
+						rank = k
+					}
 				}
+			}
+			if calleeName(c.Common()) == name {
+				k++
 			}
 		}
 	}
@@ -378,6 +411,11 @@ func (fc *fnCtx) newFrame(fn *ssa.Function, parent *frame) *frame {
 				name := calleeName(ci.Common())
 				if name == "" {
 					continue
+				}
+				// a call of a contract-less helper counts as one occurrence of every name the helper calls exactly
+				// once (the K of `call NAME#K` is stable when a statement moves into such a helper)
+				for _, inner := range fc.helperCalls(ci) {
+					seen[inner]++
 				}
 				seen[name]++
 				for _, pre := range []string{"", "-"} {
